@@ -336,6 +336,12 @@ CORPUS = [
     case({"kind": "device", "dw": None, "ar": True}, TWO, sem=True),
     case({"kind": "device", "dw": [0], "ar": True}, TWO),
     case(direct(z=[10, 11]), [A([0, 1]), G(3, d0, d1), D([0]), A([2]), G(3, d2, d1), D([1, 2])]),
+    # device wire that is only MEASURED (no gate acts on it): it belongs to the circuit and must not be handed to the allocator
+    case({"kind": "device", "dw": [0, 1, 2], "ar": True}, [G(0, 0), A([0]), G(1, d0), G(3, 0, d0), D([0])], meas=((0,), (1,)), sem=True),
+    case({"kind": "device", "dw": [1, 0, 2, 3], "ar": False}, [G(0, 0), A([0]), G(1, d0), D([0]), A([1]), G(3, 0, d1), D([1])], meas=((0,), (1,), (2,)), sem=True),
+    # no device wires and a gap in the integer labels of the circuit: fresh labels start above the LARGEST label
+    case({"kind": "device", "dw": None, "ar": True}, [G(1, 2), G(0, 0), A([0]), G(3, 0, d0), G(1, d0), D([0])], meas=((0,), (2,)), sem=True),
+    case({"kind": "device", "dw": None, "ar": False}, [G(1, 5), G(0, 1), A([0, 1]), G(3, 1, d0), G(3, d0, d1), D([0, 1])], meas=((1,), (5,)), sem=True),
 ]
 
 
